@@ -80,7 +80,8 @@ class World:
                        "fault_unwinds_2_levels", "first_touch_at_depth_2", "apply_inside_context",
                        "dimension_mismatch_refused", "post_fault_ops_executed", "reenter_after_exit",
                        "object_is_context_operator_twice", "poke_inside_context", "secularize_inside_context",
-                       "deepcopy_inside_context", "convert_inside_context", "eso_at_inside_context", "context_operator_not_looked_at", "propagation_inside_context", "time_dependent_tensor_in_pool"]
+                       "deepcopy_inside_context", "convert_inside_context", "eso_at_inside_context", "context_operator_not_looked_at", "propagation_inside_context", "time_dependent_tensor_in_pool", "evolution_at_inside_context",
+                       "refused_construction_inside_context"]
     required_faults = ["F1_simfault", "F2_refused_write", "F3_dimension_mismatch"]
     components = {
         "real": ["Manager basis stack / registration / flags", "eigenbasis_of.__enter__/__exit__", "BasisManaged",
@@ -120,14 +121,14 @@ class World:
         if not any(c in CONTEXT_CLASSES for c in classes):
             classes.append("SelfAdjoint")
         opkinds = ["enter", "enter", "exit", "exit", "create", "read", "read", "write", "poke", "protect", "unprotect",
-                   "apply", "copy", "secularize", "convert", "fault", "badwrite", "opapply", "opadd", "esoat", "libprop"]
+                   "apply", "copy", "secularize", "convert", "fault", "badwrite", "opapply", "opadd", "esoat", "libprop", "evat", "badcreate"]
         if rng.random() < 0.5:
-            drop = rng.sample(["poke", "protect", "apply", "copy", "secularize", "convert", "fault", "badwrite", "opapply", "opadd", "esoat", "libprop"],
+            drop = rng.sample(["poke", "protect", "apply", "copy", "secularize", "convert", "fault", "badwrite", "opapply", "opadd", "esoat", "libprop", "evat", "badcreate"],
                               rng.randint(1, 5))
             opkinds = [k for k in opkinds if k not in drop]
         faultfree = rng.random() < 0.35
         if faultfree:
-            opkinds = [k for k in opkinds if k not in ("fault", "badwrite")]
+            opkinds = [k for k in opkinds if k not in ("fault", "badwrite", "badcreate")]
         odd = (not faultfree) and rng.random() < 0.2
         pre = []
         for _ in range(rng.randint(1, 4)):
@@ -388,6 +389,9 @@ class Runner:
             return {"Km": K, "Lm": L, "Ld": numpy.conj(numpy.transpose(L, (0, 2, 1)))}
         if cls == "RDMEvolution":
             a = g.uniform(-1, 1, size=(3, dim, dim)) + 1j * g.uniform(-1, 1, size=(3, dim, dim))
+            a = (a + numpy.conj(numpy.transpose(a, (0, 2, 1)))) / 2.0      # every time slice is a Hermitian matrix
+            if not c:
+                a = numpy.real(a) + 0j
             return {"data": a}
         if cls == "EvSupOp":
             a = g.uniform(-1, 1, size=(3,) + (dim,) * 4) + 1j * g.uniform(-1, 1, size=(3,) + (dim,) * 4)
@@ -1061,6 +1065,60 @@ class Runner:
         n = self.add_obj("RDMEvolution", ev, {"data": tf("first3", got, Ti, T)}, N)
         self.ctx.ev(i, "libprop", h, r if ro is not None else None, st, self.depth, fingerprint(numpy.round(got, 6)))
         self.ctx.cov("libprop", None if ro is None else ro.cls, self.depth)
+
+    def op_evat(self, i, op):
+        """ReducedDensityMatrixEvolution.at(t) hands out the state of one time as a new managed object."""
+        n = self.pick(op["k"], lambda o: o.cls == "RDMEvolution" and o.protected_at is None)
+        if n is None:
+            return
+        o = self.pool[n]
+        if self.access_expected_refusal(o):
+            return
+        ti = op["s"] % 3
+        x0 = o.X0["data"][ti]
+        if float(numpy.max(numpy.abs(x0 - x0.conj().T))) > 1e-12:
+            return          # at() builds a density matrix: only Hermitian slices are legal input
+        self.touch_probe(o)
+        try:
+            tt = float(o.real.TimeAxis.data[ti])
+            R = o.real.at(tt)
+        except Exception as e:
+            raise Violation("at-raises", "op %d: evolution.at at depth %d: %s: %s" % (i, self.depth, type(e).__name__, e))
+        x = o.X0["data"][ti]
+        if float(numpy.max(numpy.abs(x - x.conj().T))) > 1e-12:
+            cls = "Operator"      # a general matrix: not eligible as a context operator later
+        else:
+            cls = "RDM"
+        m = self.add_obj(cls, R, {"data": x.copy()}, o.dim)
+        if self.depth >= 1:
+            self.ctx.probe("evolution_at_inside_context")
+        self.ctx.ev(i, "evat", n, m, ti, self.depth)
+        self.ctx.cov("evat", self.depth)
+
+    def op_badcreate(self, i, op):
+        """A refused construction (non-square data) inside a context is a fault like any other refused operation."""
+        qr = self.qr
+        self.ctx.fault("F2_refused_write")
+        how = op["s"] % 3
+        try:
+            if how == 0:
+                qr.qm.Operator(data=numpy.zeros((2, 3)))
+            elif how == 1:
+                d = self.levels[-1]["dim"] if self.levels else self.N
+                bad = numpy.zeros((d, d))
+                bad[0, 1] = 1.0
+                bad[1, 0] = 2.0       # right dimension, not self-adjoint: refused after the operator part was built
+                qr.qm.SelfAdjointOperator(data=bad)
+            else:
+                qr.ReducedDensityMatrix(data=numpy.zeros((3, 2, 2)))
+            raised = False
+        except Exception:
+            raised = True
+        check(raised, "bad-construction-accepted", "op %d: malformed operator data were accepted" % i)
+        if self.depth >= 1:
+            self.ctx.probe("refused_construction_inside_context")
+        self.ctx.ev(i, "badcreate", how, self.depth)
+        self.ctx.cov("badcreate", how, self.depth)
 
     def op_esoat(self, i, op):
         """EvolutionSuperOperator.at(t) hands out the superoperator of one time as a new managed object."""
